@@ -54,7 +54,11 @@ VARIANTS = {
     "t2_unsupported_mode": (2, "breeze_main", {"mode": "heat", "remote_key": "coolonly"}, None, ["login2", "get_state2"], "RuntimeError"),
 }
 ALPHA = {1: OPS1 + ["t1_bad_name", "t1_garbage_state"], 2: OPS2 + ["t2_garbage_state", "t2_unsupported_mode"]}
-IDS = [("aabbcc", "18"), ("3c4d5e", "a5")]
+import os
+
+_SEED = int(os.environ.get("VERIF_SEED", "0") or 0)
+_IDPOOL = [("aabbcc", "18"), ("3c4d5e", "a5"), ("0102ff", "00"), ("f0e1d2", "ff"), ("00ff10", "07")]
+IDS = [_IDPOOL[_SEED % 5], _IDPOOL[(_SEED + 1 + _SEED // 5 % 4) % 5]]
 T0 = 1_700_000_000.25
 
 
